@@ -144,7 +144,7 @@ theorem allOK_of_kfreeE {es : List (ENode × ENode)} (h : kfreeE es = true) : Al
     refine AllOK.cons ⟨?_, ?_, h2, h3, h1⟩ ((ih h4).mono ?_) <;> simp <;> omega
 
 @[simp] theorem sourceEntries_scalar (v : List Char) (tag : Nat) (rt : Option (List Char)) (st : Style) (a : Nat) (l : Loc) :
-    sourceEntries (.scalar v tag rt st a l) = if scalarIsNullish v st then some [] else none := by rw [sourceEntries]
+    sourceEntries (.scalar v tag rt st a l) = if mergeScalarIsNull v st tag then some [] else none := by rw [sourceEntries]; rfl
 @[simp] theorem sourceEntries_map (a : Nat) (l el : Loc) (es : List (ENode × ENode)) :
     sourceEntries (.map a l el es) = mapSourceEntries es := by rw [sourceEntries]
 @[simp] theorem sourceEntries_seq (a tag : Nat) (rt : Option (List Char)) (l el : Loc) (items : List ENode) :
